@@ -19,9 +19,9 @@ from .. import effects, guards
 
 MANIFEST = {
     "level": "other",
-    "technique": "static analysis: symbolic evaluation of the printing routines (helpers inlined) followed by an exhaustive decision table over the classes of (degrees, minutes, seconds, sign, decimals, style) that the extracted term can distinguish; sign-case equivalence proof (exhaustive case split on the comparisons with zero, polynomial normal forms in each case) of the decomposition against its specification; algebraic match of the recombination",
-    "text": "For all values and numbers of decimals: the printed forms (both styles, angle and right ascension) never show 60 in minutes or seconds after the rounding carry, wrap 360 deg to 0, carry the sign exactly once on the leading non-zero field and read back to the rounded value modulo 360 deg / 24 h - decided on every class the code can distinguish (each field at 0, 1, mid-range, its maximum; seconds that round to 0, to 60 or stay; both signs; no / zero / some decimals). deg2dms is proved to be (int a, int 60 frac a, 60 frac(60 frac a), sign) of a = |reduce(value)| and dms2deg its inverse formula. Floating-point recombination to 1e-9 is not decided.",
-    "note": "Trusted: deg2dms returns integer degrees in [0, 360), minutes in [0, 60), seconds in [0, 60) (its formula is proved, the float rounding of frac*60 is not); Python's round() and str.format(). Undecided: recombination to 1e-9 in floating point, values within 1e-12 of a field boundary inside deg2dms.",
+    "technique": "static analysis: symbolic evaluation of the printing routines (helpers inlined) followed by an exhaustive decision table over the classes of (degrees, minutes, seconds, sign, decimals, style) that the extracted term can distinguish; sign-case equivalence proof (exhaustive case split on the comparisons with zero, polynomial normal forms in each case) of the decomposition against its specification; algebraic match of the recombination; exact execution (rational arithmetic) of the extracted dms_tuple / ra_tuple terms on values at and within 1e-13..1e-9 of every field boundary",
+    "text": "For all values and numbers of decimals: the printed forms (both styles, angle and right ascension) never show 60 in minutes or seconds after the rounding carry, wrap 360 deg to 0, carry the sign exactly once on the leading non-zero field and read back to the rounded value modulo 360 deg / 24 h - decided on every class the code can distinguish (each field at 0, 1, mid-range, its maximum; seconds that round to 0, to 60 or stay; both signs; no / zero / some decimals). deg2dms is proved to be (int a, int 60 frac a, 60 frac(60 frac a), sign) of a = |reduce(value)| and dms2deg its inverse formula. The decomposition clause is additionally decided by executing dms_tuple() / ra_tuple() exactly on values at and within 1e-13..1e-9 of a whole second, minute or degree (hour), of 0 and of +-360, of both signs: integer degrees in [0, 360) / hours in [0, 24), integer minutes in [0, 60), seconds in [0, 60), the sign of the value, recombination to 1e-9 degree - so a carry added to the splitting routine is judged by what it returns, for the angle and the hour form alike. What float rounding adds is not decided.",
+    "note": "Trusted: Python's round() and str.format(). Undecided: float rounding of frac*60 inside deg2dms and of the recombination; values off the executed grid (the formula proof covers them when the routine has the plain form).",
 }
 MOD, CLS = "Angle", "Angle"
 
@@ -29,7 +29,8 @@ MOD, CLS = "Angle", "Angle"
 def run(repo, rep, tier):
     rep.decided = ["D1 no 60 in minutes/seconds, degree wrap, read-back modulo 360 deg / 24 h (R-CARRY decision table)",
                    "D2 sign shown once on the leading non-zero field", "D3 delegation of tuples; deg2dms formula; dms2deg formula"]
-    rep.undecided = ["floating-point recombination to 1e-9", "values within 1e-12 of a field boundary inside deg2dms"]
+    rep.undecided = ["float rounding inside deg2dms and of the recombination (the exact rational recipe is decided: R-DECOMP, R-SIB)"]
+    rep.decided.append("D4 tuples canonical (integer fields in range, sign of the value) and recombining to the value on the boundary grid, angle and RA form (R-DECOMP, exact execution)")
     rep.rule("R-CARRY", "decision table: the printing term, executed exactly on every class of (d, m, s, sign, n_dec, style), never shows 60 in "
                         "minutes/seconds, carries the sign once on the leading non-zero field and reads back to the rounded value mod 360 deg / 24 h")
     printed_forms(repo, rep)
